@@ -42,7 +42,7 @@ ASSUMPTIONS = ['references are same-row `$Ck` attribute reads inside one table (
                'in batch cases the engine is reused between graphs (tables are removed); a failing batch is minimised to '
                'the graphs needed']
 BUDGET = {'quick': dict(examples=120, shards=8, max_seconds=50),
-          'thorough': dict(examples=800, shards=16, max_seconds=600)}
+          'thorough': dict(examples=1200, shards=16, max_seconds=1800)}
 SHRINK_BUDGET = {'quick': 120, 'thorough': 400}
 
 TYPES = ['Any', 'Int', 'Numeric']
